@@ -174,6 +174,11 @@ def gen_world(rng, sweep=None):
             objs[(0x2110, i)] = [w, RW | P, int.from_bytes(d, "little")]
             cfg.add(S.domain(0x2110, i, w, d, flags=RW | P))
             pool.append((0x2110, i, w))
+        # an object of a size no basic type has (UNSIGNED24 as user type): application's data as well, never changed by the workload
+        v = rng.getrandbits(24)
+        objs[(0x2120, 0)] = [3, RW | P, v]
+        cfg.add(S.Obj(0x2120, 0, RW | P, "usr", "U", 3, 0, 0, 0, v))
+        pool.append((0x2120, 0, 3))
     tps = []
     n = rng.randint(1, 4) if sweep is None else 1
     for num in range(n):
@@ -289,11 +294,11 @@ def run_history(res, exe, rng, first, sweep=None):
                     if cfg.scale > 1 and rng.random() < 0.2:
                         op = ("tick", rng.choice([700, 1000, 1100]) * cfg.scale)
                 elif x < 0.45:
-                    op = ("wrchange", rng.choice([k_ for k_ in objs if objs[k_][0] <= 4]))
+                    op = ("wrchange", rng.choice([k_ for k_ in objs if objs[k_][0] in (1, 2, 4)]))
                 elif x < 0.50:
-                    op = ("wrsame", rng.choice([k_ for k_ in objs if objs[k_][0] <= 4]))
+                    op = ("wrsame", rng.choice([k_ for k_ in objs if objs[k_][0] in (1, 2, 4)]))
                 elif x < 0.58:
-                    op = ("sdowr", rng.choice([k_ for k_ in objs if objs[k_][0] <= 4]))
+                    op = ("sdowr", rng.choice([k_ for k_ in objs if objs[k_][0] in (1, 2, 4)]))
                 elif x < 0.66:
                     op = ("trig", rng.randrange(NT))
                 elif x < 0.72:
